@@ -97,6 +97,13 @@ pub fn run(pid: &'static str, thorough: bool) -> i32 {
             rep.extend(a.violations);
             rep.extend(b.violations);
             rep.sample(json!({"u1_history": full.labels(&full.alphabet.iter().cloned().step_by(full.alphabet.len() / 3 + 1).collect::<Vec<_>>())}));
+            {
+                let (orders, steps, maxt, v) = hist::explore_long(full, pid);
+                rep.set("u1_long_histories", json!({"orders": orders, "members_registered_per_order": full.u.len(), "registrations": steps, "entries_in_final_registry": maxt}));
+                states += orders;
+                transitions += steps;
+                rep.extend(v);
+            }
             if pid == "C11" {
                 let (nsets, v) = hist::explore_perms(full, thorough);
                 rep.set("u1_permutation_root_sets", json!(nsets));
@@ -157,7 +164,7 @@ pub fn run(pid: &'static str, thorough: bool) -> i32 {
                 transitions += r.calls;
                 rep.extend(r.violations);
             }
-            rep.set("rule", json!("(a) stateright BFS over registration histories of the static universe U1 (register_type for every member incl. every alias family, register_types pairs, into_portable / map_into_portable of definitions, fields, variants, parameters) to the depth bound, state key = Debug of the real Registry; (b) every type graph of the U2 plans x every root sequence with repetition (x every permutation of every root set for C11); each transition runs the real Registry and the property's oracle"));
+            rep.set("rule", json!("(a) stateright BFS over registration histories of the static universe U1 (register_type for every member incl. every alias family, register_types pairs, into_portable / map_into_portable of definitions, fields, variants, parameters) to the depth bound, state key = Debug of the real Registry; (a') size-related behaviour: every member of U1 registered in one history, for every rotation of the member list and its reversal, the property's oracle evaluated after every registration; (b) every type graph of the U2 plans x every root sequence with repetition (x every permutation of every root set for C11); each transition runs the real Registry and the property's oracle"));
         }
     }
     rep.set("states", json!(states));
@@ -177,6 +184,7 @@ pub fn replay(pid: &str, body: &Value) -> i32 {
     let res = match case["kind"].as_str() {
         Some("u1-history") => hist::replay_case(pid, case),
         Some("u1-perm") => hist::replay_perm(case),
+        Some("u1-long") => hist::replay_long(pid, case),
         Some("u2-graph") => graphs::replay_case(pid, case),
         Some("retain") => retain::replay_case(case, pid == "C01"),
         Some("builder") | Some("interner") => {
